@@ -5,6 +5,8 @@ package scen
 // requests of every registered route.
 
 import (
+	"fmt"
+	"net/url"
 	"sort"
 	"strings"
 )
@@ -141,9 +143,163 @@ type c16Req struct {
 	Body   string
 	CT     string
 	Open   bool // documented open route (no token needed)
+	// Spell: name of the path spelling ("" = the plain one). Path is what is sent on the
+	// wire; Dec is the percent-decoded request path, the path the ACL entries speak about
+	// ("" = same as Path); Route is the route the router picks for the spelled path.
+	Spell string
+	Dec   string
 }
 
 func (r c16Req) key() string { return r.Method + " " + r.Path }
+
+// dec: the path the reference decision is taken on.
+func (r c16Req) dec() string {
+	if r.Dec != "" {
+		return r.Dec
+	}
+	return r.Path
+}
+
+// ---------- path spellings
+//
+// The statement speaks about "(path, needed action)". Two spellings of a request path
+// that percent-decode to the same string name the same path (RFC 3986 §2.3/§6.2.2), so
+// the reference decision of every spelling is taken on the decoded path. Spellings that
+// decode to a DIFFERENT string (double slash, trailing slash, dot segments) are judged
+// on that different string: nothing is normalised away that the statement does not
+// normalise. A spelling the router does not route (its own 404 / 405) serves nothing
+// and is not judged.
+
+func c16Pct(b byte, upper bool) string {
+	if upper {
+		return fmt.Sprintf("%%%02X", b)
+	}
+	return fmt.Sprintf("%%%02x", b)
+}
+
+// c16Spellings returns name -> spelled path for one concrete request of a route pattern.
+func c16Spellings(route, path string) map[string]string {
+	rs, ps := strings.Split(route, "/"), strings.Split(path, "/")
+	out := map[string]string{}
+	if len(rs) != len(ps) {
+		return out
+	}
+	join := func(segs []string) string { return strings.Join(segs, "/") }
+	cp := func() []string { return append([]string{}, ps...) }
+	isParam := func(i int) bool { return strings.HasPrefix(rs[i], ":") }
+	firstParam, lastStatic, firstStatic := -1, -1, -1
+	for i := 1; i < len(rs); i++ {
+		if ps[i] == "" {
+			continue
+		}
+		if isParam(i) {
+			if firstParam < 0 {
+				firstParam = i
+			}
+		} else {
+			if firstStatic < 0 {
+				firstStatic = i
+			}
+			lastStatic = i
+		}
+	}
+	encFirst := func(s string, upper bool) string { return c16Pct(s[0], upper) + s[1:] }
+	encLast := func(s string, upper bool) string { return s[:len(s)-1] + c16Pct(s[len(s)-1], upper) }
+	encAll := func(s string) string {
+		var b strings.Builder
+		for i := 0; i < len(s); i++ {
+			b.WriteString(c16Pct(s[i], true))
+		}
+		return b.String()
+	}
+	if firstParam >= 0 {
+		for _, up := range []bool{false, true} {
+			n := "lc"
+			if up {
+				n = "uc"
+			}
+			a, b := cp(), cp()
+			for i := 1; i < len(rs); i++ {
+				if isParam(i) && ps[i] != "" {
+					a[i] = encFirst(ps[i], up)
+					b[i] = encLast(ps[i], up)
+				}
+			}
+			out["pct-param-first-"+n] = join(a)
+			out["pct-param-last-"+n] = join(b)
+		}
+		a := cp()
+		for i := 1; i < len(rs); i++ {
+			if isParam(i) && ps[i] != "" {
+				a[i] = encAll(ps[i])
+			}
+		}
+		out["pct-param-all"] = join(a)
+		// percent-encoded twice: decodes (once) to a path that still holds an escape sequence
+		for name, once := range map[string]string{"pct-twice-param-first": out["pct-param-first-lc"], "pct-twice-param-all": out["pct-param-all"]} {
+			out[name] = strings.ReplaceAll(once, "%", "%25")
+		}
+		// an encoded slash glued to the parameter, on either side
+		if firstParam+1 < len(ps) {
+			out["enc-slash-after-param"] = join(ps[:firstParam+1]) + "%2F" + join(ps[firstParam+1:])
+			out["enc-slash-after-param-lc"] = join(ps[:firstParam+1]) + "%2f" + join(ps[firstParam+1:])
+			out["double-slash-after-param"] = join(ps[:firstParam+1]) + "//" + join(ps[firstParam+1:])
+		}
+		out["enc-slash-before-param"] = join(ps[:firstParam]) + "%2F" + join(ps[firstParam:])
+		out["double-slash-before-param"] = join(ps[:firstParam]) + "//" + join(ps[firstParam:])
+		out["dot-segment-before-param"] = join(ps[:firstParam]) + "/./" + join(ps[firstParam:])
+		out["dotdot-segment-before-param"] = join(ps[:firstParam]) + "/zz/../" + join(ps[firstParam:])
+		out["enc-dot-segment-before-param"] = join(ps[:firstParam]) + "/%2e/" + join(ps[firstParam:])
+	}
+	if firstStatic >= 0 {
+		for _, up := range []bool{false, true} {
+			n := "lc"
+			if up {
+				n = "uc"
+			}
+			a := cp()
+			a[firstStatic] = encFirst(ps[firstStatic], up)
+			out["pct-static-first-"+n] = join(a)
+			if lastStatic != firstStatic {
+				b := cp()
+				b[lastStatic] = encFirst(ps[lastStatic], up)
+				out["pct-static-last-"+n] = join(b)
+			}
+		}
+	}
+	if path != "/" {
+		out["trailing-slash"] = path + "/"
+		out["enc-trailing-slash"] = path + "%2F"
+		out["leading-double-slash"] = "/" + path
+	}
+	for n, p := range out {
+		if p == path {
+			delete(out, n)
+		}
+	}
+	return out
+}
+
+// c16SpellFamily: the spelling without its variant suffixes (hex-digit case, which
+// character was encoded); violation classes name the family, messages the exact spelling.
+func c16SpellFamily(name string) string {
+	for _, suf := range []string{"-lc", "-uc"} {
+		name = strings.TrimSuffix(name, suf)
+	}
+	for _, suf := range []string{"-first", "-last", "-all"} {
+		name = strings.TrimSuffix(name, suf)
+	}
+	return name
+}
+
+// c16Decode: the decoded path of a spelled request target ("" = not a valid request target).
+func c16Decode(target string) string {
+	u, err := url.ParseRequestURI(target)
+	if err != nil || u.Host != "" || u.RawQuery != "" {
+		return ""
+	}
+	return u.Path
+}
 
 // documented open routes: health, the token endpoint (and static assets / api docs, which have no registered route)
 func c16IsOpen(route string) bool {
